@@ -125,6 +125,12 @@ def run_segment(ops: list, disk: str, segment: int = 0) -> dict:  # noqa: C901, 
                                      "last": None, "dirty": True, "model": None}
             elif b is None and kind not in ("evict", "load", "dump_expr", "load_expr", "build_expr"):
                 ev["skipped"] = "no builder"
+            elif kind == "drop":
+                import gc  # noqa: PLC0415
+
+                builders.pop(op["b"], None)
+                b = None
+                gc.collect()
             elif kind == "align":
                 b["builder"].config.spin_alignment = zc.make_alignment(op["v"])
                 b["dirty"] = True
